@@ -21,6 +21,8 @@ func init() {
 var wbits = []int64{0, 8, 9, 10, 11, 12, 13, 14, 15}
 
 func runC14(c *Ctx) {
+	// the negotiator is driven by the server's scan of the extensions header
+	negotiateExtensionsRules(c, "C14")
 	c14Negotiate(c)
 	c14Parse(c)
 	c14Option(c)
